@@ -838,7 +838,8 @@ def _get_spans_for_index_string_field(indices,values):
             continue
         if not np.array_equal(values[last:current], values[current:next]):
             result.append(i)
-    result.append(len(indices) - 1)  # total number of elements
+    if len(indices) > 1:
+        result.append(len(indices) - 1)  # total number of elements
     return result
 
 
